@@ -199,6 +199,10 @@ func (e *endpoint) readLoop(done chan struct{}) {
 		e.mu.Lock()
 		if int64(f.Header().Length) > e.effMaxFrame() {
 			e.violate("C09", "frame-larger-than-max-frame-size:"+f.Header().Type.String(), fmt.Sprintf("received a %s frame of %d octets, my SETTINGS_MAX_FRAME_SIZE in force is %d", f.Header().Type, f.Header().Length, e.effMaxFrame()))
+			// this endpoint reads on to observe more, but a conforming receiver answers with a
+			// connection error FRAME_SIZE_ERROR: the element this frame carries, and everything
+			// after it on the connection, is not delivered
+			e.violate("C10", "undeliverable:frame-exceeds-receiver-max-frame-size:"+f.Header().Type.String(), fmt.Sprintf("stream %d: a %s frame of %d octets was sent to a receiver whose SETTINGS_MAX_FRAME_SIZE is %d; a conforming receiver rejects it and the stream element is lost", f.Header().StreamID, f.Header().Type, f.Header().Length, e.effMaxFrame()))
 		}
 		if e.contActive {
 			if cf, ok := f.(*http2.ContinuationFrame); !ok || cf.StreamID != e.contStream {
